@@ -10,6 +10,7 @@ import (
 	"os"
 	"os/exec"
 	"path/filepath"
+	"runtime/debug"
 	"sort"
 	"strconv"
 	"strings"
@@ -44,6 +45,7 @@ type Partial struct {
 	NViolations     int64            `json:"n_violations"`
 	Inexhaustive    []string         `json:"inexhaustive"` // reasons (caps / deadlines hit)
 	HarnessErrors   []string         `json:"harness_errors"`
+	KnownHits       map[string]int64 `json:"known_hits"` // description -> cases matched (not kept in Violations)
 	Bounds          map[string]any   `json:"bounds"`
 }
 
@@ -59,6 +61,62 @@ type W struct {
 	seen    map[uint64]struct{}
 	start   time.Time
 	softDur time.Duration
+
+	known     []KnownFinding
+	journal   *os.File
+	guardMu   sync.Mutex
+	guardCase string
+	guardAt   time.Time
+	guardOn   bool
+	onHang    func()
+}
+
+// Guard declares the case about to be executed. If the worker process dies
+// with a fatal error (stack overflow, out of memory) the coordinator reports
+// the journalled case as a violation; if the case is still running after two
+// minutes it is reported as a hang.
+func (w *W) Guard(c string) {
+	if w.journal != nil {
+		b := []byte(c)
+		if len(b) > 60000 {
+			b = b[:60000]
+		}
+		hdr := fmt.Sprintf("%08d", len(b))
+		w.journal.WriteAt(append([]byte(hdr), b...), 0)
+	}
+	w.guardMu.Lock()
+	w.guardCase, w.guardAt = c, time.Now()
+	if !w.guardOn {
+		w.guardOn = true
+		go w.watchdog()
+	}
+	w.guardMu.Unlock()
+}
+
+// Unguard ends the guarded section.
+func (w *W) Unguard() {
+	w.guardMu.Lock()
+	w.guardCase = ""
+	w.guardMu.Unlock()
+}
+
+var HangAfter = 120 * time.Second
+
+func (w *W) watchdog() {
+	for {
+		time.Sleep(2 * time.Second)
+		w.guardMu.Lock()
+		c, at := w.guardCase, w.guardAt
+		w.guardMu.Unlock()
+		if c != "" && time.Since(at) > HangAfter {
+			w.Violate(Violation{Kind: "hang", Case: c, Detail: fmt.Sprintf("still running after %v", HangAfter), Size: 1})
+			w.Inexhaustive("worker stopped at a hanging case")
+			if w.onHang != nil {
+				w.onHang()
+			}
+			return
+		}
+	}
 }
 
 func NewW(id, tier string, shard, n int) *W {
@@ -165,6 +223,23 @@ func (w *W) Violate(v Violation) {
 	defer w.mu.Unlock()
 	v.Property = w.ID
 	w.P.NViolations++
+	// violations that match a listed known finding are counted, not kept, so
+	// that they cannot crowd a different violation out of the kept set
+	if w.known == nil {
+		w.known = loadKnown()
+		if w.known == nil {
+			w.known = []KnownFinding{}
+		}
+	}
+	for _, k := range w.known {
+		if k.Status == "known" && k.Property == w.ID && k.Kind == v.Kind && strings.Contains(v.Case, k.CaseContain) {
+			if w.P.KnownHits == nil {
+				w.P.KnownHits = map[string]int64{}
+			}
+			w.P.KnownHits[k.Description]++
+			return
+		}
+	}
 	// keep the 40 smallest
 	w.P.Violations = append(w.P.Violations, v)
 	if len(w.P.Violations) > 80 {
@@ -179,7 +254,10 @@ type Check struct {
 	Rule        string   // how cases are enumerated / what is nontrivial
 	Assumptions []string // trusted base
 	Workers     int      // 0 = 16 worker processes; 1 = in-process
-	Run         func(w *W)
+	// CrashIsViolation: a worker killed by a fatal runtime error is a
+	// violation of the property (the journalled case is reported).
+	CrashIsViolation bool
+	Run              func(w *W)
 	// Replay re-executes one violation's replay payload on the current tree
 	// and returns a description and whether it still fails.
 	Replay func(payload json.RawMessage) (string, bool)
@@ -227,14 +305,24 @@ func Main(c *Check, tier string, rest []string) int {
 		// worker mode
 		w := NewW(c.ID, tier, shard, n)
 		w.Seed = seed()
-		c.Run(w)
-		trim(&w.P)
-		b, _ := json.Marshal(&w.P)
-		if err := os.WriteFile(out, b, 0o644); err != nil {
-			fmt.Fprintln(os.Stderr, err)
-			return 2
+		if c.CrashIsViolation {
+			w.journal, _ = os.Create(out + ".journal")
+			debug.SetMaxStack(48 << 20) // runaway recursion dies quickly instead of eating 1 GB
 		}
-		return 0
+		writeOut := func() int {
+			w.mu.Lock()
+			trim(&w.P)
+			b, _ := json.Marshal(&w.P)
+			w.mu.Unlock()
+			if err := os.WriteFile(out, b, 0o644); err != nil {
+				fmt.Fprintln(os.Stderr, err)
+				return 2
+			}
+			return 0
+		}
+		w.onHang = func() { os.Exit(writeOut()) }
+		c.Run(w)
+		return writeOut()
 	}
 	start := time.Now()
 	var parts []*Partial
@@ -274,14 +362,39 @@ func Main(c *Check, tier string, rest []string) int {
 			}(i)
 		}
 		crashed := false
+		crashedShard := map[int]bool{}
 		for i := 0; i < workers; i++ {
 			r := <-ch
 			if r.err != nil {
-				crashed = true
 				lg := r.log
 				if len(lg) > 4000 {
-					lg = lg[:2000] + "\n...\n" + lg[len(lg)-2000:]
+					lg = lg[:2500] + "\n...\n" + lg[len(lg)-1500:]
 				}
+				if c.CrashIsViolation {
+					jb, _ := os.ReadFile(filepath.Join(dir, fmt.Sprintf("p%d.json.journal", r.i)))
+					cs := "(no case journalled)"
+					if len(jb) >= 8 {
+						var n int
+						fmt.Sscanf(string(jb[:8]), "%d", &n)
+						if 8+n <= len(jb) {
+							cs = string(jb[8 : 8+n])
+						}
+					}
+					first := lg
+					if i := strings.Index(first, "\n\n"); i > 0 && i < 600 {
+						first = first[:i]
+					} else if len(first) > 600 {
+						first = first[:600]
+					}
+					p := &Partial{Counters: map[string]int64{}, Obs: map[string]int64{}, Bounds: map[string]any{}}
+					p.Violations = append(p.Violations, Violation{Property: c.ID, Kind: "fatal-crash", Case: cs, Detail: "worker process died: " + r.err.Error() + ": " + first, Size: 0})
+					p.NViolations = 1
+					p.Inexhaustive = append(p.Inexhaustive, fmt.Sprintf("worker %d died at the journalled case; the rest of its shard was not explored", r.i))
+					parts = append(parts, p)
+					crashedShard[r.i] = true
+					continue
+				}
+				crashed = true
 				fmt.Fprintf(os.Stderr, "HARNESS: worker %d failed: %v\n%s\n", r.i, r.err, lg)
 			}
 		}
@@ -289,6 +402,9 @@ func Main(c *Check, tier string, rest []string) int {
 			return 2
 		}
 		for i := 0; i < workers; i++ {
+			if crashedShard[i] {
+				continue
+			}
 			b, err := os.ReadFile(filepath.Join(dir, fmt.Sprintf("p%d.json", i)))
 			if err != nil {
 				fmt.Fprintln(os.Stderr, "HARNESS:", err)
@@ -318,8 +434,11 @@ func trim(p *Partial) {
 }
 
 func finish(c *Check, tier string, parts []*Partial, wall time.Duration) int {
-	m := &Partial{Counters: map[string]int64{}, Obs: map[string]int64{}, Bounds: map[string]any{}}
+	m := &Partial{Counters: map[string]int64{}, Obs: map[string]int64{}, Bounds: map[string]any{}, KnownHits: map[string]int64{}}
 	for _, p := range parts {
+		for k, v := range p.KnownHits {
+			m.KnownHits[k] += v
+		}
 		m.Evaluations += p.Evaluations
 		m.States += p.States
 		m.Transitions += p.Transitions
@@ -396,7 +515,7 @@ func finish(c *Check, tier string, parts []*Partial, wall time.Duration) int {
 	}
 	for i, k := range known {
 		if k.Status == "known" && k.Property == c.ID {
-			fmt.Printf("KNOWN-FINDING: property=%s %s (matched %d cases this run)\n", c.ID, k.Description, knownHit[i])
+			fmt.Printf("KNOWN-FINDING: property=%s %s (matched %d cases this run)\n", c.ID, k.Description, int64(knownHit[i])+m.KnownHits[k.Description])
 		}
 	}
 	// evidence
